@@ -33,6 +33,9 @@ func genC11(t *rapid.T) C11Scn {
 				st.Cost4 = -1 // resolved below: the agreed cost
 			}
 		}
+		if st.K == "race" {
+			st.Cost4 = rapid.IntRange(0, 6).Draw(t, "racers")
+		}
 		if (st.K == "update" || st.K == "foreign") && rapid.IntRange(0, 5).Draw(t, "fwdodd") == 0 {
 			st.Fwd = rapid.IntRange(1, len(c11Pool)).Draw(t, "fwd")
 		}
